@@ -38,8 +38,10 @@ ABN == <<"abn", 0>>
 RST(e) == <<"state", e>>
 NEXTE(e) == <<"nexte", e>>
 NXT(n) == <<"nxt", n>>
-LocsDef == {HEADL, ABN} \cup {RST(e) : e \in Entries} \cup {NEXTE(e) : e \in Entries} \cup {NXT(n) : n \in Nodes}
-           \cup (IF Weak THEN {RT(NEXTE(e), u) : e \in Entries, u \in ThreadsDef} \cup {RT(NXT(n), u) : n \in Nodes, u \in ThreadsDef} ELSE {})
+PAY(e) == <<"pay", e>>     \* the plain members of a record that its owner reads and writes and that adoption does not reset (hazard_eras: last_hazard_era, guard counts ...)
+LocsDef == {HEADL, ABN} \cup {RST(e) : e \in Entries} \cup {NEXTE(e) : e \in Entries} \cup {NXT(n) : n \in Nodes} \cup {PAY(e) : e \in Entries}
+           \cup (IF Weak THEN {RT(NEXTE(e), u) : e \in Entries, u \in ThreadsDef} \cup {RT(NXT(n), u) : n \in Nodes, u \in ThreadsDef}
+                               \cup {RT(PAY(e), u) : e \in Entries, u \in ThreadsDef} ELSE {})
 InitValDef(x) == IF x[1] = "state" THEN "none" ELSE 0
 
 VARIABLES pc, loc, lives, own, used, usedn, mine, livecnt, peak, bad
@@ -86,9 +88,9 @@ a_cas(t) == /\ pc[t] = "a_cas"
             /\ LET x == RST(loc[t].cur) IN
                IF AdoptCas
                  THEN IF Latest(x) = "free"
-                        THEN /\ Rmw(t, x, "active", Ord["a_cas"]) /\ own' = [own EXCEPT ![t] = loc[t].cur] /\ Goto(t, "work")
+                        THEN /\ Rmw(t, x, "active", Ord["a_cas"]) /\ own' = [own EXCEPT ![t] = loc[t].cur] /\ Goto(t, "use")
                         ELSE /\ CasFail(t, x, Ord["casf"]) /\ UNCHANGED own /\ Goto(t, "a_next")
-                 ELSE /\ Store(t, x, "active", "rlx") /\ own' = [own EXCEPT ![t] = loc[t].cur] /\ Goto(t, "work")
+                 ELSE /\ Store(t, x, "active", "rlx") /\ own' = [own EXCEPT ![t] = loc[t].cur] /\ Goto(t, "use")
             /\ bad' = IF bad = "ok" /\ own'[t] # 0 /\ \E u \in Threads \ {t} : own[u] = own'[t] THEN "two threads own the same record" ELSE bad
             /\ UNCHANGED <<loc, lives, used, usedn, mine, livecnt, peak>>
 \* result = result->next_entry (plain)
@@ -117,9 +119,18 @@ a_setn(t) == /\ pc[t] = "a_setn"
 \* (6)
 a_push(t) == /\ pc[t] = "a_push"
              /\ IF Latest(HEADL) = loc[t].h
-                  THEN /\ Rmw(t, HEADL, loc[t].e, Ord["a_push"]) /\ Goto(t, "work") /\ UNCHANGED loc
+                  THEN /\ Rmw(t, HEADL, loc[t].e, Ord["a_push"]) /\ Goto(t, "use") /\ UNCHANGED loc
                   ELSE /\ CasFail(t, HEADL, Ord["casf"]) /\ loc' = [loc EXCEPT ![t].h = Latest(HEADL)] /\ Goto(t, "a_setn")
              /\ UA
+
+\* the new owner of a record reads and then writes the record's plain members (what the previous owner left there): ordered after the previous
+\* owner's accesses only through release (x_rel) / acquire (a_cas) on the record's state word
+p_rd(t) == /\ pc[t] = "use"
+           /\ PlainRd(t, PAY(own[t]))
+           /\ Goto(t, "use2") /\ UNCHANGED loc /\ UA
+p_wr(t) == /\ pc[t] = "use2"
+           /\ PlainWr(t, PAY(own[t]), t + 1)
+           /\ Goto(t, "work") /\ UNCHANGED loc /\ UA
 
 \* ---------------------------------------------------------------- the thread works: it retires up to MaxRetire nodes it cannot reclaim
 Retire(t) == /\ pc[t] = "work" /\ Len(mine[t]) < MaxRetire /\ usedn < NNodes
@@ -180,7 +191,7 @@ x_rel(t) == /\ pc[t] = "x_rel"
             /\ Goto(t, "idle")
             /\ UNCHANGED <<loc, lives, used, usedn, mine, peak, bad>>
 
-ThreadStep(t) == \/ Start(t) \/ a_ldh(t) \/ a_ldst(t) \/ a_cas(t) \/ a_next(t) \/ a_new(t) \/ a_ldh2(t) \/ a_setn(t) \/ a_push(t)
+ThreadStep(t) == \/ p_rd(t) \/ p_wr(t) \/ Start(t) \/ a_ldh(t) \/ a_ldst(t) \/ a_cas(t) \/ a_next(t) \/ a_new(t) \/ a_ldh2(t) \/ a_setn(t) \/ a_push(t)
                  \/ Retire(t) \/ d_ld(t) \/ d_xchg(t) \/ d_walk(t) \/ StartExit(t) \/ b_link(t) \/ b_ld(t) \/ b_setn(t) \/ b_cas(t) \/ x_rel(t)
 Next == \E t \in Threads : ThreadStep(t)
 Spec == Init /\ [][Next]_vars
